@@ -18,7 +18,8 @@ RULE = (
     "(none / built-in / composition of 1-3) x choice sequence (each step picks "
     "among filtered available operations or among all raw ready operations, and "
     "an eligible machine, optionally omitting the machine id for single-machine "
-    "operations). Oracle: independent feasibility checker on "
+    "operations), optionally preceded by an abandoned partial episode and a "
+    "reset() on the same dispatcher. Oracle: independent feasibility checker on "
     "dispatcher.schedule.schedule after every dispatch + is_complete exactly "
     "after num_operations dispatches. Mode 'exhaustive': every dispatch history "
     "(all interleavings x machine choices) of a generated instance with <=7 "
@@ -49,6 +50,7 @@ def strategy(tier):
             "inst": inst,
             "filters": gen.filter_configs(),
             "history": gen.sized_lists(step, 40),
+            "pre": st.one_of(st.just(0), st.just(0), st.integers(1, 12)),
         }
     )
     small = gen.instances(
@@ -85,6 +87,14 @@ def _sequence(case, ctx):
     inst, filters, history = case["inst"], case["filters"], case["history"]
     drv = Driver(inst, filters)
     n = drv.model.n_ops
+    pre = min(case.get("pre", 0), n)
+    if pre:
+        # an earlier, abandoned episode on the same dispatcher
+        for k in range(pre):
+            drv.step(k, k, "ready")
+        drv.dispatcher.reset()
+        drv.model = ref(inst)
+        ctx.label("after_reset")
     _check_state(ctx, inst, drv.dispatcher, 0, n, "initial")
     jobs_seq = []
     for k in range(n):
